@@ -259,3 +259,19 @@ package engine
 //@   ensures ghost(rputs, wb.db.radixMemI) != old(ghost(rputs, wb.db.radixMemI)) ==> wb.cachedForMerge != nil && (old(wb.cachedForMerge) != nil ==> wb.cachedForMerge == old(wb.cachedForMerge) && ghost(mapupd, wb.cachedForMerge) == old(ghost(mapupd, wb.cachedForMerge)) + 1) && (old(wb.cachedForMerge) == nil ==> ghost(mapupd, wb.cachedForMerge) == 1)
 //@   mapassert wb.cachedForMerge len(mapval) == 8 && le64(mapval, 0) == counterVal(oldV) + counterVal(value) && bytesEq(mapkey, key)
 //@   modifies *
+
+// ---- pebble cursor construction: pebble's upper bound is EXCLUSIVE, the engine contract's Max is inclusive unless the
+// range is right-open.  A right-closed range therefore gets the smallest key strictly above Max (Max followed by a
+// zero byte) as its bound; a right-open one gets Max itself; the lower bound is Min in all cases ----
+//@ property C20
+//@ extern (*github.com/cockroachdb/pebble.DB).NewIter func(d *pebble.DB, o *pebble.IterOptions) *pebble.Iterator
+//@ extern (*github.com/cockroachdb/pebble.DB).NewSnapshot func(d *pebble.DB) *pebble.Snapshot
+//@ extern (*github.com/cockroachdb/pebble.Snapshot).NewIter func(s *pebble.Snapshot, o *pebble.IterOptions) *pebble.Iterator
+//@ func (pe *PebbleEng) IsClosed() bool
+//@   trusted atomic flag read
+//@ func newPebbleIterator(db *PebbleEng, opts IteratorOpts) (*pebbleIterator, error)
+//@   requires db != nil && db.eng != nil
+//@   ensures result1 == nil ==> result0 != nil && result0.opt != nil && sameSlice(result0.opt.LowerBound, opts.Min)
+//@   ensures result1 == nil && (opts.Type & common.RangeROpen != 0 || opts.Max == nil) ==> sameSlice(result0.opt.UpperBound, opts.Max)
+//@   ensures result1 == nil && opts.Type & common.RangeROpen == 0 && opts.Max != nil ==> len(result0.opt.UpperBound) == len(opts.Max) + 1 && result0.opt.UpperBound[len(opts.Max)] == 0 && (forall i int :: 0 <= i && i < len(opts.Max) ==> result0.opt.UpperBound[i] == old(opts.Max[i]))
+//@   modifies *
